@@ -216,21 +216,23 @@ class LiftSubgraphInitializersToMainGraphPass(ir.passes.InPlacePass):
 class RemoveInitializersFromInputsPass(ir.passes.InPlacePass):
     """Remove initializers from inputs.
 
-    This pass finds all graph inputs that have a const_value and removes them from the graph.inputs list.
+    This pass finds all inputs of the main graph that are initializers and removes them from the graph.inputs list.
     """
 
     def call(self, model: ir.Model) -> ir.passes.PassResult:
         count = 0
-        for graph in model.graphs():
-            initializers = set(graph.initializers.values())
-            new_inputs = []
-            for input_value in graph.inputs:
-                if input_value in initializers:
-                    count += 1
-                else:
-                    new_inputs.append(input_value)
-            graph.inputs.clear()
-            graph.inputs.extend(new_inputs)
+        # Only the main graph: the inputs of a subgraph are bound by position by the
+        # control-flow operator that owns it, so its input list must not change.
+        graph = model.graph
+        initializers = set(graph.initializers.values())
+        new_inputs = []
+        for input_value in graph.inputs:
+            if input_value in initializers:
+                count += 1
+            else:
+                new_inputs.append(input_value)
+        graph.inputs.clear()
+        graph.inputs.extend(new_inputs)
         logger.info("Removed %s initializers from graph inputs", count)
         return ir.passes.PassResult(model, modified=bool(count))
 
@@ -238,16 +240,19 @@ class RemoveInitializersFromInputsPass(ir.passes.InPlacePass):
 class AddInitializersToInputsPass(ir.passes.InPlacePass):
     """Add initializers to inputs.
 
-    This pass finds all initializers and adds them to the graph.inputs list if they are not already present.
+    This pass finds all initializers of the main graph and adds them to the graph.inputs list if they are not already present.
     """
 
     def call(self, model: ir.Model) -> ir.passes.PassResult:
         count = 0
-        for graph in model.graphs():
-            inputs_set = set(graph.inputs)
-            for initializer in graph.initializers.values():
-                if initializer not in inputs_set:
-                    graph.inputs.append(initializer)
-                    count += 1
+        # Only the main graph: the inputs of a subgraph are bound by position by the
+        # control-flow operator that owns it (a Loop body has exactly N+2 inputs, an If
+        # branch none), so initializers must not be appended to them.
+        graph = model.graph
+        inputs_set = set(graph.inputs)
+        for initializer in graph.initializers.values():
+            if initializer not in inputs_set:
+                graph.inputs.append(initializer)
+                count += 1
         logger.info("Added %s initializers to graph inputs", count)
         return ir.passes.PassResult(model, modified=bool(count))
